@@ -8,7 +8,7 @@ GUARD: None -> the buffer is handed over in place (fast path, like pybind11 does
 """
 import ctypes, os
 _here = os.path.dirname(os.path.abspath(__file__))
-_lib = ctypes.CDLL(os.path.join(_here, 'libgcshim.so'))
+_lib = ctypes.CDLL(os.environ.get('VERIF_NATIVE_LIB') or os.path.join(_here, 'libgcshim.so'))
 _lib.gc_new.restype = ctypes.c_void_p
 _lib.gc_new.argtypes = [ctypes.c_size_t, ctypes.c_size_t, ctypes.c_char_p, ctypes.c_size_t, ctypes.c_char_p, ctypes.c_size_t]
 _lib.gc_next_cut.restype = ctypes.c_size_t
